@@ -29,33 +29,35 @@ impl Finalize for Shadow {}
 
 
 class Probe:
-    def __init__(self, name, kind, variants, generic=False):
+    def __init__(self, name, kind, variants, generic=False, delim="()"):
+        self.delim = delim            # spelling of the attribute's delimiters: #[rust_cc(ignore)] / #[rust_cc[ignore]] / #[rust_cc{ignore}]
         self.name = name
         self.kind = kind              # 'struct' | 'enum'
         self.variants = variants      # [(vname, style('unit'|'tuple'|'named'), ignored_variant, [(fname, type, ignored)])]
         self.generic = generic
 
     def source(self):
-        g = "<T: Trace + 'static>" if self.generic else ""
+        g = "<T>" if self.generic == "unbounded" else ("<T: Trace + 'static>" if self.generic else "")
         out = ["#[derive(Trace, Finalize)]"]
+        IGN = "#[rust_cc%signore%s] " % (self.delim[0], self.delim[1])
         if self.kind == "struct":
             (_, style, _, fields) = self.variants[0]
             if style == "unit":
                 out.append("pub struct %s%s;" % (self.name, g))
             elif style == "tuple":
-                out.append("pub struct %s%s(%s);" % (self.name, g, ", ".join(("#[rust_cc(ignore)] " if ig else "") + ty for _, ty, ig in fields)))
+                out.append("pub struct %s%s(%s);" % (self.name, g, ", ".join((IGN if ig else "") + ty for _, ty, ig in fields)))
             else:
-                out.append("pub struct %s%s { %s }" % (self.name, g, ", ".join(("#[rust_cc(ignore)] " if ig else "") + "%s: %s" % (fn, ty) for fn, ty, ig in fields)))
+                out.append("pub struct %s%s { %s }" % (self.name, g, ", ".join((IGN if ig else "") + "%s: %s" % (fn, ty) for fn, ty, ig in fields)))
         else:
             vs = []
             for (vn, style, vig, fields) in self.variants:
-                pre = "#[rust_cc(ignore)] " if vig else ""
+                pre = IGN if vig else ""
                 if style == "unit":
                     vs.append(pre + vn)
                 elif style == "tuple":
-                    vs.append(pre + "%s(%s)" % (vn, ", ".join(("#[rust_cc(ignore)] " if ig else "") + ty for _, ty, ig in fields)))
+                    vs.append(pre + "%s(%s)" % (vn, ", ".join((IGN if ig else "") + ty for _, ty, ig in fields)))
                 else:
-                    vs.append(pre + "%s { %s }" % (vn, ", ".join(("#[rust_cc(ignore)] " if ig else "") + "%s: %s" % (fn, ty) for fn, ty, ig in fields)))
+                    vs.append(pre + "%s { %s }" % (vn, ", ".join((IGN if ig else "") + "%s: %s" % (fn, ty) for fn, ty, ig in fields)))
             out.append("pub enum %s%s { %s }" % (self.name, g, ", ".join(vs)))
         return "\n".join(out)
 
@@ -122,7 +124,23 @@ def generate(tier, seed):
             vs.append(("V%d" % v, style, vig, fs))
         probes.append(Probe(name(), "enum", vs, generic=False))
     probes.append(Probe(name(), "enum", [("V0", "tuple", False, [("0", "T", False), ("1", "NoTrace", True)]), ("V1", "unit", False, []), ("V2", "named", True, [("f0", "NoTrace", False)])], generic=True))
+    # a type parameter without any bound, used only in ignored positions: neither derived impl may demand anything of it
+    probes.append(Probe(name(), "struct", [("S", "named", False, [("f0", "T", True), ("f1", "Cc<L>", False)])], generic="unbounded"))
+    probes.append(Probe(name(), "enum", [("V0", "tuple", False, [("0", "Cc<L>", False), ("1", "T", True)]), ("V1", "tuple", True, [("0", "T", False)])], generic="unbounded"))
+    # the other two delimiter spellings of the attribute list
+    probes.append(Probe(name(), "struct", [("S", "named", False, [("f0", "NoTrace", True), ("f1", "Cc<L>", False)])], delim="[]"))
+    probes.append(Probe(name(), "enum", [("V0", "tuple", False, [("0", "Cc<L>", False), ("1", "NoTrace", True)]), ("V1", "tuple", True, [("0", "NoTrace", False)])], delim="{}"))
     return probes
+
+
+def uses(probes):
+    """Monomorphic uses: the derived impls of a probe whose parameter is unbounded must exist for a parameter that implements nothing."""
+    out = ["fn _needs_trace<X: Trace>() {}", "fn _needs_finalize<X: Finalize>() {}", "pub fn _uses() {"]
+    for p in probes:
+        if p.generic == "unbounded":
+            out.append("    _needs_trace::<%s<NoTrace>>(); _needs_finalize::<%s<NoTrace>>();" % (p.name, p.name))
+    out.append("}")
+    return "\n".join(out)
 
 
 def build_grid(probes, repo=None):
@@ -138,7 +156,7 @@ def build_grid(probes, repo=None):
         if os.path.exists(os.path.join(repo, "Cargo.lock")):
             shutil.copy2(os.path.join(repo, "Cargo.lock"), os.path.join(tmp, "p", "Cargo.lock"))
         with open(os.path.join(tmp, "p", "src", "lib.rs"), "w") as fh:
-            fh.write(PRELUDE + "\n" + "\n\n".join(p.source() for p in probes) + "\n")
+            fh.write(PRELUDE + "\n" + "\n\n".join(p.source() for p in probes) + "\n\n" + uses(probes) + "\n")
         out = os.path.join(tmp, "out")
         os.makedirs(out)
         env = build._env(out, os.path.join(tmp, "t"), ["ccgrid"], True)
